@@ -4,7 +4,7 @@ import os, shutil, subprocess, sys, json, time
 from concurrent.futures import ThreadPoolExecutor
 root = sys.argv[1]; ids = sys.argv[2] if len(sys.argv) > 2 else 'all'; tier = sys.argv[3] if len(sys.argv) > 3 else 'quick'
 override = sys.argv[4].split(',') if len(sys.argv) > 4 else None
-ids = sorted(os.listdir(root)) if ids == 'all' else ids.split(',')
+ids = sorted(d for d in os.listdir(root) if os.path.isdir(os.path.join(root, d))) if ids == 'all' else ids.split(',')
 V = os.path.dirname(os.path.dirname(os.path.abspath(__file__)))
 def one(i):
     d = '/tmp/vrepo/' + i
